@@ -228,7 +228,9 @@ def o_equals_history(inp):
             if new is None:
                 return fails + [("~skip:edit-does-not-apply", "")]
             if not U.live_edit(B, step.get("via", "messages_abs"), nb, sb, e):
-                raise RuntimeError(f"harness: the messages of edit {e} were not found in B")
+                # the messages are looked up by the plain data: not finding them means the sequence does not hold what it was given (the code
+                # under test changed a value on the way in) — a failure to report, not a crash of the harness
+                return fails + [("content", f"the messages of edit {e} were not found in B: B does not hold the values it was built from")]
             nb, sb = new
             n_edits += 1
             # the objects hold what the plain data says (read off the message objects, no library logic involved)
@@ -236,7 +238,8 @@ def o_equals_history(inp):
             want = collections.Counter(build(nb, sb)[1])
             have = collections.Counter(from_real(m) for m in B.abs._messages)
             if want != have:
-                raise RuntimeError(f"harness: after edit {e} B holds {sorted(have.items(), key=repr)}, the plain data is {sorted(want.items(), key=repr)}")
+                return fails + [("content", f"after edit {e} B holds {sorted(have.items(), key=repr)}, the plain data is {sorted(want.items(), key=repr)}: "
+                                            "the sequence does not hold the values it was given")]
             continue
         for flags in step.get("compare") or []:
             flags = tuple(bool(x) for x in flags)
